@@ -123,6 +123,9 @@ type P2PStore[H goheader.Header[H]] struct {
 // FailNextReads arms n transient read failures.
 func (s *P2PStore[H]) FailNextReads(n int) { s.mu.Lock(); s.FailReads = n; s.mu.Unlock() }
 
+// Armed reports whether an armed read failure has not been consumed yet (the node had no reason to read).
+func (s *P2PStore[H]) Armed() bool { s.mu.Lock(); defer s.mu.Unlock(); return s.FailReads > 0 }
+
 func (s *P2PStore[H]) AppendItem(h H) {
 	s.mu.Lock()
 	defer s.mu.Unlock()
